@@ -5,6 +5,7 @@ from engine.driver import Result, viol
 
 ID = "C14"
 LEVEL = "exploration"
+HANG_IS_VIOLATION = True     # every generated case terminates under the model: no reply (twice, then 3x confirmation) is a violation
 ENGINE = "E-hyp"
 TECHNIQUE = "property-based testing: generated source layouts (comments, single-/multi-line defines, inactive sections, nested includes, CRLF) in front of an injected fault whose true file/line/column is known by construction; reported location compared with it"
 RULE = ("cases = a main file and up to 3 nested include files, each a list of layout blocks (// lines, block comments spanning k lines, single-line defines, multi-line "
